@@ -202,8 +202,12 @@ example : reverseT (.str [0x68, 0xC3, 0xA9]) = ⟨.ok (.str [0xC3, 0xA9, 0x68]),
   T.ext (by rfl) (by decide)
 example : reverseT (.num (.int .i64 (2 ^ 62))) = ⟨errType, 0⟩ := rfl
 
-/-- functions.go:96 WITHOUT its guard cannot even be written as a terminating Go loop (`for { … }`); with a counter
-    bound `f` in place of the guard the cost is `f` whatever the string: the guard is what ties the loop to `|s|` -/
+/-- NOT a Go-expressible mutant.  functions.go:96 `for len(s) > 0 { … }` has no counter: its guard is its only loop
+    condition, and without it the loop is `for { … }`, which does not terminate.  `revNoGuardT f` is that
+    non-terminating loop CUT OFF after `f` iterations by the mirror's own counter (a counter Go does not have).  What
+    `revNoGuardT_cost_ge` says about the unguarded loop: it performs every number `f` of iterations on every string,
+    so it has no finite cost (`C09E.revNoGuard_no_finite_cost`: `∀ c, ∃ f, c < cost`) — the guard is what ties the
+    loop to `|s|`. -/
 def revNoGuardT (f : Nat) (s b : Bytes) : T (Bytes × Bytes) :=
   forT (fun _ => true) revStrBody f (s, b)
 
